@@ -9,7 +9,10 @@ use std::sync::atomic::{AtomicBool, AtomicU64, Ordering};
 use std::sync::Mutex;
 use std::time::Instant;
 
-pub const VERIF_DIR: &str = "/verif";
+/// directory holding known_findings.json, evidence/ and replay/ (the check script passes its own location)
+pub fn verif_dir() -> String {
+    std::env::var("VERIF_DIR").unwrap_or_else(|_| "/verif".to_string())
+}
 
 /// property currently being explored (for the hang watchdog)
 pub static CURRENT_PROPERTY: std::sync::OnceLock<String> = std::sync::OnceLock::new();
@@ -158,7 +161,7 @@ pub struct Finding {
 }
 
 pub fn load_findings() -> Vec<Finding> {
-    let path = format!("{}/known_findings.json", VERIF_DIR);
+    let path = format!("{}/known_findings.json", verif_dir());
     let Ok(txt) = std::fs::read_to_string(&path) else {
         return vec![];
     };
@@ -187,6 +190,8 @@ pub struct SpaceReport {
     pub sampling: bool,
     pub ctx: Ctx,
     pub violations: Vec<(u64, Violation)>,
+    /// cases matching an open known finding: they are counted but never stop the exploration
+    pub known_count: u64,
     pub wall_s: f64,
     pub bound: Value,
     pub samples: Vec<Value>,
@@ -206,7 +211,14 @@ pub fn nthreads() -> usize {
 /// Enumerate a space completely (ids 0..size) on all cores; stop early only
 /// when `deadline` passes (reported as incomplete) or >= 32 violations found.
 pub fn run_space(space: &dyn Space, deadline: Option<Instant>) -> SpaceReport {
+    run_space_known(space, deadline, &[])
+}
+
+/// `known`: key prefixes of open known findings of the current property. Matching cases are counted, a few are
+/// kept (so that they are confirmed by replay like any other verdict), and they do not count towards the stop cap.
+pub fn run_space_known(space: &dyn Space, deadline: Option<Instant>, known: &[String]) -> SpaceReport {
     let t0 = Instant::now();
+    let known_count = AtomicU64::new(0);
     let size = space.size();
     let next = AtomicU64::new(0);
     let stop = AtomicBool::new(false);
@@ -245,9 +257,16 @@ pub fn run_space(space: &dyn Space, deadline: Option<Instant>) -> SpaceReport {
                 };
                 mine += 1;
                 if let Err(v) = r {
+                    let is_known = known.iter().any(|k| v.key.starts_with(k.as_str()));
                     let mut g = viols.lock().unwrap();
+                    if is_known {
+                        if known_count.fetch_add(1, Ordering::Relaxed) < 4 {
+                            g.push((id, v));
+                        }
+                        continue;
+                    }
                     g.push((id, v));
-                    if g.len() >= 32 {
+                    if g.iter().filter(|(_, v)| !known.iter().any(|k| v.key.starts_with(k.as_str()))).count() >= 32 {
                         stop.store(true, Ordering::Relaxed);
                         break 'outer;
                     }
@@ -323,6 +342,7 @@ pub fn run_space(space: &dyn Space, deadline: Option<Instant>) -> SpaceReport {
         sampling: space.is_sampling_supplement(),
         ctx: merged.into_inner().unwrap(),
         violations,
+        known_count: known_count.load(Ordering::Relaxed),
         wall_s: t0.elapsed().as_secs_f64(),
         bound: space.bound(),
         samples,
@@ -371,8 +391,10 @@ impl PropRun {
     /// run one space, confirm violations by replaying each twice, classify
     pub fn explore(&mut self, space: &dyn Space, budget_s: f64) {
         let deadline = Some(Instant::now() + std::time::Duration::from_secs_f64(budget_s));
-        let rep = run_space(space, deadline);
         let findings = load_findings();
+        let known_keys: Vec<String> = findings.iter().filter(|f| f.property == self.property && f.status == "known").map(|f| f.key.clone()).collect();
+        let rep = run_space_known(space, deadline, &known_keys);
+        let mut known_seen_here = 0u64;
         for (id, v) in &rep.violations {
             // replay twice: a verdict must be reproducible
             let mut keys = vec![];
@@ -395,7 +417,10 @@ impl PropRun {
                 .iter()
                 .find(|f| f.property == self.property && f.status == "known" && v.key.starts_with(&f.key));
             if let Some(f) = known {
-                *self.known_hits.entry(format!("{} ({})", f.what, f.key)).or_insert(0) += 1;
+                // all matching cases of this space are attributed once, to the first confirmed sample
+                let add = if known_seen_here == 0 { std::cmp::max(1, rep.known_count) } else { 0 };
+                known_seen_here += 1;
+                *self.known_hits.entry(format!("{} ({})", f.what, f.key)).or_insert(0) += add;
             } else {
                 let path = write_replay(&self.property, &rep.name, *id, space.describe(*id), v);
                 self.new_violations.push((rep.name.clone(), *id, v.clone(), path));
@@ -479,7 +504,7 @@ impl PropRun {
             "wall_s": (wall*1000.0).round()/1000.0,
             "violations": nviol,
         });
-        let dir = format!("{}/evidence", VERIF_DIR);
+        let dir = format!("{}/evidence", verif_dir());
         let _ = std::fs::create_dir_all(&dir);
         let path = format!("{}/{}.json", dir, self.property);
         std::fs::write(&path, serde_json::to_string_pretty(&ev).unwrap()).expect("write evidence");
@@ -509,7 +534,7 @@ impl PropRun {
 }
 
 pub fn write_replay(prop: &str, space: &str, id: u64, case: Value, v: &Violation) -> String {
-    let dir = format!("{}/replay/{}", VERIF_DIR, prop);
+    let dir = format!("{}/replay/{}", verif_dir(), prop);
     let _ = std::fs::create_dir_all(&dir);
     let sp: String = space
         .chars()
